@@ -21,7 +21,9 @@ def _key(p):
 
 def _mover(a, b):
     """The thread whose pc/ops changed, and the call it starts (if any)."""
-    mv = [t for t in a["th"] if a["th"][t] != b["th"][t]]
+    mv = [t for t in a["th"] if a["th"][t]["pc"] != b["th"][t]["pc"] or a["th"][t]["ops"] != b["th"][t]["ops"]]
+    if len(mv) != 1:
+        mv = [t for t in a["th"] if a["th"][t] != b["th"][t]]
     if len(mv) != 1:
         return None
     t = mv[0]
@@ -141,7 +143,8 @@ def run(ctx):
     # ---- 1. model pass
     mc = vf.tlc_must_pass(ctx, "MC_Streams", "MC_Streams_quick.cfg", timeout=600)
     seq = vf.tlc_must_pass(ctx, "MC_Streams", "MC_Streams_seq.cfg", timeout=600)
-    states, trans = mc.distinct + seq.distinct, mc.generated + seq.generated
+    race = vf.tlc_must_pass(ctx, "MC_Streams", "MC_Streams_race.cfg", timeout=900)
+    states, trans = mc.distinct + seq.distinct + race.distinct, mc.generated + seq.generated + race.generated
     extra = []
     if not quick:
         t3 = vf.tlc_must_pass(ctx, "MC_Streams", "MC_Streams_thorough.cfg", timeout=1500, heap="14g", coverage=False)
@@ -153,6 +156,15 @@ def run(ctx):
     init, edges, _ = _edges(ctx, "MC_Streams_edges.cfg")
     nodes, paths, nedges = path_cover(init, edges)
     scheds = schedules_from_paths([[nodes[i] for i in p] for p in paths])
+    # racing releases of one id (two release paths): every edge of the 2-thread race instance as well
+    rinit, redges, _ = _edges(ctx, "MC_Streams_race_edges.cfg")
+    rnodes, rpaths, rnedges = path_cover(rinit, redges)
+    rs = schedules_from_paths([[rnodes[i] for i in p] for p in rpaths])
+    for s_ in rs:
+        s_["n"] += len(scheds)
+    scheds += rs
+    nedges += rnedges
+    nodes = nodes + rnodes
     ctx.log("graph walk: %d nodes, %d edges, %d schedules" % (len(nodes), nedges, len(scheds)))
     nwalk = 0
     if not quick:
@@ -258,7 +270,8 @@ def run(ctx):
         schedules_diverged=summ["Diverged"], simulation_walks=nwalk,
         real_traces_monitored_by_tlc=len(chosen), interval_traces=len(files), interval_traces_explained=lin_ok,
         model_configs=[dict(cfg="MC_Streams_quick", distinct=mc.distinct, generated=mc.generated, depth=mc.depth),
-                       dict(cfg="MC_Streams_seq", distinct=seq.distinct, generated=seq.generated)] + extra,
+                       dict(cfg="MC_Streams_seq", distinct=seq.distinct, generated=seq.generated),
+                       dict(cfg="MC_Streams_race", distinct=race.distinct, generated=race.generated)] + extra,
         samples=[dict(kind="schedule", init_free=sample_s["init"]["used"],
                       steps=[(s["t"], s["op"] or s["exp"]["th"][s["t"]]["pc"]) for s in sample_s["steps"]][:40])],
     )
